@@ -46,7 +46,7 @@ INIT = {
 
 def alphabet(cls):
     ops = [('data', 'A'), ('data', 'B'), ('data', 'C'),
-           ('NFFT', 40), ('NFFT', 41), ('NFFT', 'nextpow2'), ('NFFT', 'same'),
+           ('NFFT', 40), ('NFFT', 41), ('NFFT', 'nextpow2'), ('NFFT', 'same'), ('NFFT', 'none'), ('data', 'Alist'),
            ('sampling', 2.5), ('sampling', 'same'),
            ('scale_by_freq', True), ('scale_by_freq', False),
            ('sides', 'onesided'), ('sides', 'twosided'), ('sides', 'centerdc'), ('sides', 'same'),
@@ -132,6 +132,8 @@ def cases(c):
 def resolve_nfft(v, N, cur):
     if v == 'same':
         return cur
+    if v == 'none':
+        return N                     # assigning None means "the data length""
     if v == 'nextpow2':
         return 1 << int(np.ceil(np.log2(N)))
     return int(v)
@@ -262,12 +264,16 @@ def run_case(c, d):
         before = abstract(live, cls)
         try:
             if kind == 'data':
-                live.data = np.array(DATA[val], copy=True)
+                if val == 'Alist':
+                    live.data = [float(v) for v in DATA['A']]        # a plain list of the same samples as 'A'
+                    val = 'A'
+                else:
+                    live.data = np.array(DATA[val], copy=True)
                 st['data'] = val
                 changed.append('data')
             elif kind == 'NFFT':
                 new = resolve_nfft(val, len(DATA[st['data']]), st['NFFT'])
-                live.NFFT = (st['NFFT'] if val == 'same' else val)
+                live.NFFT = (st['NFFT'] if val == 'same' else (None if val == 'none' else val))
                 if new != st['NFFT']:
                     changed.append('NFFT')
                 st['NFFT'] = new
